@@ -49,42 +49,92 @@ Qed.
 Lemma pure_kseq : forall ss k, pure_kont (kseq ss k) = forallb pure_stmt ss && pure_kont k.
 Proof. intros [|s ss] k; reflexivity. Qed.
 
+Lemma get_pure : forall e x, pure_env e = true -> mem_s x ranged = true -> get e x = VAny.
+Proof.
+  induction e as [|[y v] r IH]; intros x He Hx; [reflexivity|]. cbn [pure_env forallb fst snd] in He.
+  apply andb_prop in He. destruct He as [Hy Hr]. cbn [get]. destruct (String.eqb_spec y x) as [->|Hne].
+  - rewrite Hx in Hy. destruct v; try discriminate. reflexivity.
+  - now apply IH.
+Qed.
+
+Lemma pure_env_bind : forall e x v, pure_env e = true -> (mem_s x ranged = true -> v = VAny) -> pure_env (bind x v e) = true.
+Proof.
+  intros e x v He Hv. unfold bind. destruct (is_blank x); [exact He|]. unfold pure_env in *. cbn [forallb fst snd]. rewrite He, andb_true_r.
+  destruct (mem_s x ranged); [now rewrite Hv | reflexivity].
+Qed.
+
+Lemma forallb_skipn : forall {A} (f : A -> bool) n l, forallb f l = true -> forallb f (skipn n l) = true.
+Proof.
+  intros A f n. induction n as [|n IH]; intros l H; [exact H|]. destruct l as [|x r]; [reflexivity|].
+  cbn [forallb] in H. apply andb_prop in H. cbn [skipn]. apply IH. tauto.
+Qed.
+
+Lemma pure_env_trunc : forall e d, pure_env e = true -> pure_env (trunc d e) = true.
+Proof. intros e d H. unfold trunc, pure_env. now apply forallb_skipn. Qed.
+
+Lemma pure_frame_intro : forall e k, pure_kont k = true -> pure_env e = true -> pure_frame (MkFrame e [] k) = true.
+Proof. intros e k Hk He. unfold pure_frame. cbn [fr_defers fr_k fr_env]. now rewrite Hk, He. Qed.
+
 Lemma pure_step : forall c fr q new, pure_frame fr = true -> tstep P c [fr] = Some (q, new) ->
   (q = QTau \/ q = QExit) /\ forallb pure_frame new = true.
 Proof.
-  intros c [e ds k] q new Hp H. unfold pure_frame in Hp. cbn [fr_defers fr_k] in Hp. destruct ds; [|discriminate].
+  intros c [e ds k] q new Hp H. unfold pure_frame in Hp. cbn [fr_defers fr_k fr_env] in Hp. destruct ds; [|discriminate].
+  apply andb_prop in Hp. destruct Hp as [Hp He].
   unfold tstep in H. cbn [fr_k fr_defers fr_env] in H.
+  assert (Hone : forall e' k', pure_kont k' = true -> pure_env e' = true -> forallb pure_frame [MkFrame e' [] k'] = true).
+  { intros e' k' H1 H2. cbn [forallb]. now rewrite pure_frame_intro. }
   destruct k as [|ss k|d k|body k|body k|kx vx body k|kx vx todo body k]; cbn [pure_kont] in Hp.
   - inversion H; subst. split; [now right | reflexivity].
   - destruct ss as [|s ss].
-    + inversion H; subst. split; [now left|]. cbn in Hp |- *. unfold pure_frame. cbn. now rewrite Hp.
+    + inversion H; subst. split; [now left|]. cbn in Hp. now apply Hone.
     + cbn [forallb] in Hp. apply andb_prop in Hp. destruct Hp as [Hp Hk]. apply andb_prop in Hp. destruct Hp as [Hs Hss].
       assert (Hkk : pure_kont (kseq ss k) = true) by (rewrite pure_kseq, Hss, Hk; reflexivity).
       destruct s; cbn [pure_stmt] in Hs; try discriminate; cbn [tstep_stmt] in H.
-      * inversion H; subst. split; [now left|]. cbn. unfold pure_frame. cbn. now rewrite Hkk.
-      * inversion H; subst. split; [now left|]. cbn. unfold pure_frame. cbn. now rewrite Hs, Hkk.
-      * cbn [fr_env] in H. destruct (get e over); try discriminate; inversion H; subst; (split; [now left|]);
-          cbn; unfold pure_frame; cbn; now rewrite Hs, Hkk.
-      * destruct c; try discriminate. destruct (nth_error cases i) as [[nm body]|] eqn:En; [|discriminate].
-        inversion H; subst. split; [now left|]. cbn. unfold pure_frame, enter_block. cbn.
-        rewrite pure_kseq. cbn. rewrite Hkk.
-        apply nth_error_In in En. rewrite forallb_forall in Hs. specialize (Hs _ En). cbn in Hs. now rewrite Hs.
-      * destruct c; try discriminate. apply andb_prop in Hs. destruct Hs as [Ha Hb].
-        inversion H; subst. split; [now left|]. cbn. unfold pure_frame, enter_block. cbn.
-        rewrite pure_kseq. cbn. rewrite Hkk. destruct b; [now rewrite Ha | now rewrite Hb].
-      * inversion H; subst. split; [now left|]. reflexivity.
-  - inversion H; subst. split; [now left|]. cbn. unfold pure_frame. cbn. now rewrite Hp.
+      * inversion H; subst. split; [now left|]. now apply Hone.
+      * inversion H; subst. split; [now left|]. apply Hone; [|exact He]. cbn [pure_kont]. now rewrite Hs, Hkk.
+      * cbn [fr_env] in H. apply andb_prop in Hs. destruct Hs as [Hr Hb]. unfold range_ok in Hr.
+        apply andb_prop in Hr. destruct Hr as [Hr Hv]. apply andb_prop in Hr. destruct Hr as [Ho Hkx].
+        rewrite (get_pure _ _ He Ho) in H. inversion H; subst. split; [now left|]. apply Hone; [|exact He].
+        cbn [pure_kont]. now rewrite Hkx, Hv, Hb, Hkk.
+      * destruct c; try discriminate. apply andb_prop in Hs. destruct Hs as [Hs Hb]. apply andb_prop in Hs. destruct Hs as [_ Ha].
+        inversion H; subst. split; [now left|]. unfold enter_block. apply Hone; [|exact He].
+        rewrite pure_kseq. cbn [pure_kont]. rewrite Hkk. destruct b; [now rewrite Ha | now rewrite Hb].
+      * inversion H; subst. split; [now left|]. now apply Hone.
+  - inversion H; subst. split; [now left|]. apply Hone; [exact Hp | now apply pure_env_trunc].
   - discriminate.
   - apply andb_prop in Hp. destruct Hp as [Hb Hk]. destruct c as [|[|]| | |]; try discriminate; inversion H; subst;
-      (split; [now left|]); cbn; unfold pure_frame, enter_block; cbn; [|now rewrite Hk].
-    rewrite pure_kseq. cbn. now rewrite Hb, Hk.
-  - apply andb_prop in Hp. destruct Hp as [Hb Hk]. destruct c as [| | |[z|]|]; try discriminate; inversion H; subst;
-      (split; [now left|]); cbn; unfold pure_frame, enter_iter; cbn; [|now rewrite Hk].
-    rewrite pure_kseq. cbn. now rewrite Hb, Hk.
-  - apply andb_prop in Hp. destruct Hp as [Hb Hk]. destruct c as [| | |[z|]|]; try discriminate.
-    + destruct (mtake z todo) as [[v todo']|]; [|discriminate]. inversion H; subst. split; [now left|].
-      cbn. unfold pure_frame, enter_iter. cbn. rewrite pure_kseq. cbn. now rewrite Hb, Hk.
-    + destruct todo; [|discriminate]. inversion H; subst. split; [now left|]. cbn. unfold pure_frame. cbn. now rewrite Hk.
+      (split; [now left|]); unfold enter_block; (apply Hone; [|exact He]); [|exact Hk].
+    rewrite pure_kseq. cbn [pure_kont]. now rewrite Hb, Hk.
+  - apply andb_prop in Hp. destruct Hp as [Hp Hk]. apply andb_prop in Hp. destruct Hp as [Hp Hb].
+    apply andb_prop in Hp. destruct Hp as [Hkx Hv].
+    destruct c as [| | |[z|]|]; try discriminate; inversion H; subst; (split; [now left|]).
+    + unfold enter_iter. apply Hone.
+      * rewrite pure_kseq. cbn [pure_kont]. now rewrite Hb, Hkx, Hv, Hk.
+      * apply pure_env_bind; [|reflexivity]. apply pure_env_bind; [exact He|]. intros Hm. rewrite Hm in Hkx. discriminate.
+    + now apply Hone.
+  - discriminate.
+Qed.
+
+(** a pure frame can always take a step (with a suitable choice) *)
+Lemma pure_can_step : forall fr, pure_frame fr = true -> exists c q new, tstep P c [fr] = Some (q, new).
+Proof.
+  intros [e ds k] Hp. unfold pure_frame in Hp. cbn [fr_defers fr_k fr_env] in Hp. destruct ds; [|discriminate].
+  apply andb_prop in Hp. destruct Hp as [Hp He]. unfold tstep. cbn [fr_k fr_defers fr_env].
+  destruct k as [|ss k|d k|body k|body k|kx vx body k|kx vx todo body k]; cbn [pure_kont] in Hp; try discriminate.
+  - exists CNone. eauto.
+  - destruct ss as [|s ss]; [exists CNone; eauto|].
+    cbn [forallb] in Hp. apply andb_prop in Hp. destruct Hp as [Hp _]. apply andb_prop in Hp. destruct Hp as [Hs _].
+    destruct s; cbn [pure_stmt] in Hs; try discriminate; cbn [tstep_stmt].
+    + exists CNone. eauto.
+    + exists CNone. eauto.
+    + cbn [fr_env]. apply andb_prop in Hs. destruct Hs as [Hr _]. unfold range_ok in Hr.
+      apply andb_prop in Hr. destruct Hr as [Hr _]. apply andb_prop in Hr. destruct Hr as [Ho _].
+      rewrite (get_pure _ _ He Ho). exists CNone. eauto.
+    + exists (CBool true). eauto.
+    + exists CNone. eauto.
+  - exists CNone. eauto.
+  - exists (CBool false). eauto.
+  - exists (CIter None). eauto.
 Qed.
 
 Lemma th_mkpure : forall fs b, th_sn (mkpure fs b) = fs ++ th_base b.
